@@ -919,7 +919,8 @@ fn c16_identities(hx: &Hx, o: &Obs, v: &mut Verdict) {
             hx.len,
         );
     }
-    let refused = hx.writes.iter().filter(|w| matches!(w.apply_end, Some((_, St::RejNoSpace)) | Some((_, St::RejTooHeavy)))).count() as u64;
+    // puts (and upserts acting as puts) that were acknowledged as refused by admission, as the callers saw it
+    let refused = hx.writes.iter().filter(|w| !w.is_delete() && matches!(w.status(), Some(St::RejNoSpace) | Some(St::RejTooHeavy))).count() as u64;
     if s.keys_rejected != refused {
         v.fail("C16", "C16/rejected/conc".into(), format!("KeysRejected {} != {} puts refused by admission", s.keys_rejected, refused), hx.len);
     }
